@@ -364,6 +364,29 @@ type goSite struct {
 	fn     *ssa.Function
 	in     *ssa.Go
 	target string
+	// when the goroutine is a thin closure `go func() { defer ...; F(args) }()`: the function it runs
+	inner   string
+	wrapper *ssa.Function
+}
+
+// thinWrapper: cl only defers calls and calls one library function; returns that function.
+func thinWrapper(cl *ssa.Function) *ssa.Function {
+	var inner *ssa.Function
+	n := 0
+	ok := true
+	allInstrs(cl, func(in ssa.Instruction) {
+		switch x := in.(type) {
+		case *ssa.Call:
+			n++
+			inner = x.Call.StaticCallee()
+		case *ssa.Go, *ssa.Send, *ssa.Select, *ssa.Store, *ssa.MapUpdate:
+			ok = false
+		}
+	})
+	if !ok || n != 1 || inner == nil || !strings.HasPrefix(idOf(inner).pkg, modPath) {
+		return nil
+	}
+	return inner
 }
 
 func goSites(p *Program, rel string) []goSite {
@@ -375,12 +398,17 @@ func goSites(p *Program, rel string) []goSite {
 				return
 			}
 			t := "?"
-			if sc := g.Call.StaticCallee(); sc != nil {
+			if mc, ok := g.Call.Value.(*ssa.MakeClosure); ok {
+				cl := mc.Fn.(*ssa.Function)
+				t = fnKey(cl)
+				if in := thinWrapper(cl); in != nil {
+					out = append(out, goSite{fn, g, t, fnKey(in), cl})
+					return
+				}
+			} else if sc := g.Call.StaticCallee(); sc != nil {
 				t = fnKey(sc)
-			} else if mc, ok := g.Call.Value.(*ssa.MakeClosure); ok {
-				t = fnKey(mc.Fn.(*ssa.Function))
 			}
-			out = append(out, goSite{fn, g, t})
+			out = append(out, goSite{fn: fn, in: g, target: t})
 		})
 	}
 	return out
